@@ -26,7 +26,8 @@ TECHNIQUE = ('model-based round-trip / differential testing: Hypothesis-'
              'generated workbooks with serialization-hostile constants x '
              'format x iterative flag x extra_data x pre-save and post-load '
              'histories; original vs loaded model compared step by step; '
-             'loads repeated on a fresh thread and in a fresh process')
+             'loads repeated on a fresh thread and in a fresh process'
+             '; enumerated save sequences (all triples of save kinds, write between / write back), source-hash and error-valued-range-member scenarios, plugin functions')
 LEVEL_TEXT = ('Exploration over generated workbooks whose constants are '
               'biased to values that text formats mangle (YAML/JSON look-'
               'alikes, extreme floats, unicode line breaks, long lines), '
